@@ -914,7 +914,7 @@ def _find_unit(unit, error=False):
 
                 # First character of a unit is always alphabet or $.
                 # Remaining characters may include numbers.
-                regex = re.compile('[A-Z,a-z]{1}[A-Z,a-z,0-9]*')
+                regex = re.compile(r'(?<![\w.])[A-Za-z_]\w*')
 
                 unit_table = _UNIT_LIB.unit_table
                 prefixes = _UNIT_LIB.prefixes
